@@ -218,8 +218,6 @@ def _main(eng: Engine, tier: str, seed: int, opts: Any) -> int:
 	core.run_indexed(_work_i, range(total), deadline=deadline, on_result=absorb)
 	done = state['done']
 	sim_time = state['sim_time']
-	if not opts.no_determinism:
-		ev.coverage['determinism_check'] = determinism_spot_check(eng, seed, logs)
 	for rec in eng.extra_passes(ev, tier, seed):
 		violations.append(({'case': rec['case'], 'label': rec.get('label', 'enum'), 'from_pass': True}, rec['violation']))
 	ev.coverage['canonical_histories'] = len(canon)
@@ -271,6 +269,9 @@ def _main(eng: Engine, tier: str, seed: int, opts: Any) -> int:
 		print(f'VIOLATION property={eng.prop} replay={path}')
 		exit_code = 1
 	ev.violations = len(violations)
+	if exit_code == 0 and not opts.no_determinism:
+		# only on a clean run: when the code under test itself depends on the hash seed the run has already reported that as a violation
+		ev.coverage['determinism_check'] = determinism_spot_check(eng, seed, logs)
 	for k in core.known_for(eng.prop):
 		print(f"KNOWN-FINDING: property={eng.prop} {k['id']}: {k['what']} (observed {known_seen.get(k['id'], 0)}x in this run)")
 	if not opts.no_evidence:
